@@ -19,7 +19,12 @@ CLAIM = {
             "hand-written), and for every struct the order in which consensus_encode writes the fields equals the "
             "order in which consensus_decode reads them and the declaration order; as_vec prefixes the type's own id, "
             "from_vec / from_reader / read_message compare the id and reject trailing bytes. Does not decide "
-            "value-level round-trip equality (runtime values) nor the content clause for streamed PSBTs.",
+            "(R19.4) streamed PSBTs: in the StreamedPSBT decoder every iteration over the PSBT inputs pushes exactly "
+            "one input and exactly one segwit flag (so the flag vector stays aligned with the inputs), `true` is "
+            "pushed only on the branch where the spent output of the streamed previous transaction is a witness "
+            "program and `false` only elsewhere, the previous transaction is accepted only if its txid equals the "
+            "input's outpoint txid and the output index exists, and the encoder writes exactly the wrapped PSBT. "
+            "Does not decide value-level round-trip equality (runtime values).",
     "note": "rustc const evaluation of associated consts; bitcoin_consensus_derive / serde_bolt primitive codecs trusted",
     "technique": "static analysis: registry/exhaustiveness cross-check + encode/decode sibling agreement over MIR",
 }
@@ -27,7 +32,7 @@ CLAIM = {
 
 def run(ctx):
     ctx.explanation = CLAIM["text"]
-    ctx.not_decided = "value-level round trip for all field values; streamed-PSBT content clause"
+    ctx.not_decided = "value-level round trip for all field values (rust-bitcoin PSBT codec trusted)"
     p = ctx.prog
     serbolt = [im for im in p.impls_of(P + "msgs::SerBolt")]
     debolt = [im for im in p.impls_of(P + "msgs::DeBolt")]
@@ -37,6 +42,7 @@ def run(ctx):
     r191(ctx, serbolt, variants)
     types = r192(ctx, debolt, variants)
     r193(ctx, serbolt, types)
+    r194(ctx)
 
 
 def short(t):
@@ -361,3 +367,116 @@ def order(fv):
                 stack.pop()
     dfs(0)
     return out[::-1]
+
+
+def r194(ctx):
+    ctx.rule("R19.4", "streamed PSBT: one input and one segwit flag per iteration; flag value follows the spent output")
+    p = ctx.prog
+    b = p.fn(f"<{P}psbt::StreamedPSBT as {DEC}>::consensus_decode_from_finite_reader")
+    fv = fnview(ctx, b, policy=False)
+    nv = fv.named()
+    key = "StreamedPSBT::decode"
+    loops = R.loops_over(nv, lambda s: "inputs" in s and "Enumerate" not in s or ".inputs" in s)
+    ctx.ob("R19.4", len(loops) == 1, f"{key}/input-loop", f"{len(loops)} loops over the PSBT inputs", where=f"{b.file}:{b.line}")
+    if len(loops) != 1:
+        return
+    h, nc, be, ee = loops[0]
+    body_entries = {v for (u, v) in be}
+    in_loop = set()
+    for v in body_entries:
+        in_loop |= fv.reach(v, cut_nodes={h})
+    flag, inp = [], []
+    for bi, c in b.calls():
+        nm = c.callee.name if c.callee else ""
+        if bi in in_loop and nm.endswith("Vec::<T, A>::push"):
+            recv = render(strip_ref(nv.expr(c.args[0])))
+            if recv == "segwit_flags":
+                flag.append((bi, c))
+            elif recv == "inputs":
+                inp.append((bi, c))
+    ctx.ob("R19.4", len(inp) >= 1, f"{key}/inputs-push", "no inputs.push in the input loop", where=f"{b.file}:{nc.line}")
+    ctx.ob("R19.4", len(flag) >= 1, f"{key}/flags-push", "no segwit_flags.push in the input loop", where=f"{b.file}:{nc.line}")
+    fb = {bi for bi, c in flag}
+    ib = {bi for bi, c in inp}
+    # every completed iteration pushes an input; every pushed input was preceded by a flag push in this iteration
+    done_wo_input = any(h in fv.reach(v, cut_nodes=ib) for v in body_entries)
+    ctx.ob("R19.4", not done_wo_input, f"{key}/iteration-pushes-input", "an iteration over the inputs can complete without pushing the input",
+           where=f"{b.file}:{nc.line}", sample="iteration => inputs.push")
+    for bi, c in inp:
+        reach_wo_flag = any(bi in fv.reach(v, cut_nodes=fb | {h}) for v in body_entries)
+        pth = None
+        if reach_wo_flag:
+            for v in body_entries:
+                pth = fv.path(v, bi, cut_nodes=fb | {h})
+                if pth:
+                    break
+        ctx.ob("R19.4", not reach_wo_flag, f"{key}/flag-per-input",
+               "an input of the streamed PSBT is pushed without a segwit flag: the flag vector loses alignment with the inputs"
+               + (f" (path lines {fv.lines_of_path(pth)})" if pth else ""),
+               where=f"{b.file}:{c.line}", sample="inputs.push => exactly one segwit_flags.push before it in the iteration")
+    for bi, c in flag:
+        nxt = b.term(bi).targets[:1]
+        again = any(fb & fv.reach(v, cut_nodes={h}) for v in nxt)
+        ctx.ob("R19.4", not again, f"{key}/one-flag-per-iteration", "two segwit flags can be pushed in one iteration",
+               where=f"{b.file}:{c.line}", sample="at most one flag per iteration")
+    for bi, c in inp:
+        nxt = b.term(bi).targets[:1]
+        again = any(ib & fv.reach(v, cut_nodes={h}) for v in nxt)
+        ctx.ob("R19.4", not again, f"{key}/one-input-per-iteration", "an input can be pushed twice in one iteration", where=f"{b.file}:{c.line}")
+    # flag value: true only under is_witness_program(output[prevout.vout]) == true, false only elsewhere
+    wit = [(bi, c) for bi, c in b.calls() if bi in in_loop and c.callee and c.callee.name.endswith("Script::is_witness_program")]
+    ctx.ob("R19.4", len(wit) == 1, f"{key}/witness-test", f"{len(wit)} is_witness_program tests in the input loop", where=f"{b.file}:{nc.line}")
+    if len(wit) == 1:
+        wbi, wc = wit[0]
+        arg = render(nv.expr(wc.args[0]))
+        ctx.ob("R19.4", "output" in arg and "script_pubkey" in arg, f"{key}/witness-test-subject", f"witness test applies to `{arg[:100]}`",
+               where=f"{b.file}:{wc.line}", sample=arg[:100])
+        oexpr = render(fv.expr(wc.args[0]))
+        ctx.ob("R19.4", ".output[" in oexpr and "unsigned_tx.input[" in oexpr and "Iterator>::next(" in oexpr and ")?.0].previous_output.vout]" in oexpr and oexpr.endswith(".script_pubkey"), f"{key}/witness-test-output",
+               f"witness test subject is `{oexpr[:160]}`, not the output selected by the input's outpoint index",
+               where=f"{b.file}:{wc.line}", sample="input_tx.output[prevout.vout].script_pubkey")
+        te = fv.result_edges(wbi, wc, "ok")
+        fe = fv.result_edges(wbi, wc, "err")
+        for bi, c in flag:
+            v = fv.expr(c.args[1])
+            rv_ = render(v)
+            if rv_ == "true":
+                ok = bool(te) and bi not in fv.reach(0, cut_edges=te)
+                ctx.ob("R19.4", ok, f"{key}/true-only-if-witness", "segwit flag `true` is pushed on a path where the spent output is not known to be a witness program",
+                       where=f"{b.file}:{c.line}", sample="push(true) dominated by is_witness_program == true")
+            elif rv_ == "false":
+                ok = True
+                for (u, t) in te:
+                    if bi in fv.reach(t, cut_nodes={h}):
+                        ok = False
+                ctx.ob("R19.4", ok, f"{key}/false-not-if-witness", "segwit flag `false` is pushed although the spent output is a witness program",
+                       where=f"{b.file}:{c.line}", sample="push(false) unreachable from is_witness_program == true within the iteration")
+            else:
+                ok = R.mentions_call(v, "is_witness_program") and v[0] == "call"
+                ctx.ob("R19.4", ok, f"{key}/flag-value", f"segwit flag value `{rv_[:80]}` is not the witness test of the spent output",
+                       where=f"{b.file}:{c.line}", sample=rv_[:80])
+    # previous tx accepted only if txid matches and the output index exists (refusal scenarios)
+    eqs = R.eq_sites(nv, lambda x, y: "compute_txid" in x and "previous_output.txid" in y)
+    ctx.ob("R19.4", len(eqs) >= 1, f"{key}/txid-compared", "the streamed previous transaction's txid is not compared with the input's outpoint",
+           where=f"{b.file}:{nc.line}", sample=f"{len(eqs)} comparison(s)")
+    for cbi, line, eqe, dife, r0, r1 in eqs:
+        bad = [bi for bi, c in inp if any(bi in fv.reach(v, cut_nodes={h}) for (_, v) in dife)]
+        ctx.ob("R19.4", bool(dife) and not bad, f"{key}/txid-mismatch-refused",
+               "an input is accepted although the streamed previous transaction's txid differs from the input's outpoint",
+               where=f"{b.file}:{line}", sample=f"{r0[:50]} != {r1[:50]} => input not pushed")
+    # the struct literal takes the flags vector built in the loop
+    n = 0
+    for bb, bi, si, s in R.constructions(p, P + "psbt::StreamedPSBT"):
+        if bb is b:
+            n += 1
+            vals = dict(zip(s.rv.a[3], s.rv.ops))
+            e = render(strip_ref(nv.expr(vals["segwit_flags"])))
+            ctx.ob("R19.4", e == "segwit_flags", f"{key}/result-flags", f"decoded segwit_flags is `{e[:60]}`", where=f"{b.file}:{s.line}")
+    ctx.floor("R19.4", "StreamedPSBT literal in decoder", n, 1)
+    # encoder writes the wrapped psbt only
+    eb = p.fn(f"<{P}psbt::StreamedPSBT as {ENC}>::consensus_encode")
+    ev = fnview(ctx, eb, policy=False)
+    enc = [c for bi, c in eb.calls() if c.callee and "consensus_encode" in c.callee.name]
+    ok = len(enc) == 1 and "psbt" in render(ev.expr(enc[0].args[0]))
+    ctx.ob("R19.4", ok, "StreamedPSBT::encode/writes-psbt", "StreamedPSBT encoder does not write exactly the wrapped PSBT", where=f"{eb.file}:{eb.line}",
+           sample="self.psbt.consensus_encode(writer)")
